@@ -23,6 +23,7 @@ def main():
     ap.add_argument("--tier", default="quick")
     ap.add_argument("--only", default="")
     ap.add_argument("--nostore", action="store_true")
+    ap.add_argument("--index-offset", type=int, default=0)
     a = ap.parse_args()
     wt = f"/tmp/eql_seedeval_{a.prop}_{os.getpid()}"
     sh("git", "-C", "/repo", "worktree", "remove", "--force", wt)
@@ -66,7 +67,7 @@ def main():
                                     "failures": kinds[-1][:300] if kinds else ""})
             print(f"{a.prop}#{i}: confirmed={confirmed} tests='{meta['tests']}' demo clean rc={d0.returncode} patched rc={d1.returncode} checks={res}", flush=True)
             if confirmed and not a.nostore:
-                dst = os.path.join(VERIF, "seeded", f"{a.prop}_{i}")
+                dst = os.path.join(VERIF, "seeded", f"{a.prop}_{i + a.index_offset}")
                 os.makedirs(dst, exist_ok=True)
                 shutil.copy(patch, os.path.join(dst, "patch.diff"))
                 shutil.copy(demo, os.path.join(dst, "demo.py"))
